@@ -74,7 +74,22 @@ IDX_MODELS = {
     "idx_ba": dict(fn=idx2_ba, pars=("b", "a")),
 }
 
+def xy_quad_cab(x, c, a, b):
+    return a * x * x + b * x + c
+
+
+def xy_quad_bca(x, b, c, a):
+    return a * x * x + b * x + c
+
+
+def xy_scaled(x, a, c):
+    return a * (x + c)
+
+
 XY_MODELS = {
+    "quad_cab": dict(fn=xy_quad_cab, pars=("c", "a", "b"), f=lambda x, p: p[1] * x * x + p[2] * x + p[0], dfdx=lambda x, p: 2 * p[1] * x + p[2]),
+    "quad_bca": dict(fn=xy_quad_bca, pars=("b", "c", "a"), f=lambda x, p: p[2] * x * x + p[0] * x + p[1], dfdx=lambda x, p: 2 * p[2] * x + p[0]),
+    "scaled": dict(fn=xy_scaled, pars=("a", "c"), f=lambda x, p: p[0] * (x + p[1]), dfdx=lambda x, p: p[0] + 0 * x),
     "lin_bc": dict(fn=xy_lin_bc, pars=("b", "c"), f=lambda x, p: p[0] * x + p[1], dfdx=lambda x, p: p[0] + 0 * x),
     "lin_ba": dict(fn=xy_lin_ba, pars=("b", "a"), f=lambda x, p: p[0] * x + 2 * p[1], dfdx=lambda x, p: p[0] + 0 * x),
     "lin_cd": dict(fn=xy_lin_cd, pars=("c", "d"), f=lambda x, p: p[0] * x + p[1], dfdx=lambda x, p: p[0] + 0 * x),
